@@ -279,6 +279,8 @@ def discharge(F, s):
             if re.search(r"Map<|HashMap|BTreeMap|IndexMap|str\b|String", short(recv)) and not re.search(r"^\[|Vec<", short(recv)):
                 return False
             n = array_len(recv)
+            if n is None:
+                n = env.array_len(t["args"][0])      # a slice view of an array / GenericArray of known length
             if n is not None:
                 ln = Term(None, n)
             else:
